@@ -1,0 +1,8 @@
+//go:build verif
+
+package c11
+
+import "github.com/lni/dragonboat/v4/internal/rsm"
+
+// SSRequest is rsm.SSRequest (argument of (*rsm.StateMachine).Save).
+type SSRequest = rsm.SSRequest
